@@ -264,6 +264,7 @@ def execute(case: dict) -> dict:
                 try:
                     resp = await session.get("http://example.com/")
                     holder["content"] = resp.content
+                    holder["transport"] = conn.transports[0][0]
                     out = bytearray()
                     try:
                         await consume(resp.content, out)
@@ -305,6 +306,7 @@ def execute(case: dict) -> dict:
                 peer = memnet.ScriptPeer()
                 log: list = []
                 ct, st_ = memnet.connect_protocols(loop, log, peer, proto, c2s=memnet.Plan(case.get("s2c") or []))
+                result["transport"] = st_
                 peer.send(b"POST / HTTP/1.1\r\nHost: a\r\n" + hdr_fr + ce + b"\r\n" + wire_body)
                 if case["framing"] == "eof":
                     raise RuntimeError("EOF framing is not a request framing")
@@ -324,6 +326,15 @@ def execute(case: dict) -> dict:
             if content is not None:
                 resident = getattr(content, "total_bytes", 0) - consumed[0]
                 stats["max_resident"] = max(stats["max_resident"], resident)
+                tr = holder.get("transport")
+                try:
+                    high = content.get_read_buffer_limits()[1]
+                except AttributeError:  # EMPTY_PAYLOAD has no buffer
+                    high = None
+                if (tr is not None and high is not None and resident > high and not tr.reading_paused and not tr.closing and not tr.lost_called
+                        and not content.is_eof() and content.exception() is None):
+                    raise Violation("not-paused-over-high-water", f"{resident} decoded bytes buffered > high water {high} and the body is not complete, "
+                                    f"but reading from the transport is not paused; coding={coding} framing={case['framing']} limit={limit}")
                 if resident > bound and -1 not in reads and case.get("mode") != "readany":
                     raise Violation("memory-bound", f"{resident} decoded bytes resident with read limit {limit} (largest read {maxread}), bound {bound}; "
                                     f"coding={coding} ratio={stats['ratio']:.0f} framing={case['framing']}")
@@ -446,6 +457,24 @@ def cases(draw, side: str):
     return case
 
 
+@st.composite
+def backpressure_cases(draw):
+    """Bodies much larger than the read buffer, arriving in large wire segments, read by a slow consumer."""
+    coding = draw(st.sampled_from(["identity", "identity", "gzip", "deflate", "zstd"]))
+    size = draw(st.sampled_from([100000, 300000]))
+    return {
+        "side": "client", "shape": draw(st.sampled_from(["text", "zeros", "random"])) if coding == "identity" else draw(st.sampled_from(["text", "zeros"])),
+        "size": size if coding == "identity" else size * 4, "k": 0, "coding": coding,
+        "framing": draw(st.sampled_from(["chunked", "chunked", "cl", "eof"])), "chunk": draw(st.sampled_from([100, 1000, 8192])),
+        "limit": draw(st.sampled_from([1, 16, 1024, 4096])), "mode": "read", "reads": [draw(st.sampled_from([1000, 4096, 8192]))],
+        "pause": draw(st.sampled_from([1, 2, 3])), "s2c": draw(st.sampled_from([[65536], [20000, 30000], [5000], []])),
+    }
+
+
+def unit_backpressure(rec: Rec, n: int, offset: int) -> None:
+    hyp.run(rec, backpressure_cases(), body, n, seed_offset=offset, max_root_causes=4)
+
+
 def unit_hyp(rec: Rec, n: int, offset: int, side: str) -> None:
     hyp.run(rec, cases(side), body, n, seed_offset=offset, max_root_causes=6)
 
@@ -454,6 +483,7 @@ def units(tier: str, seed: int) -> list[Unit]:
     n = 60 if tier == "quick" else 1500
     us = [Unit(f"client{i}", unit_hyp, {"n": n, "offset": i, "side": "client"}) for i in range(10)]
     us += [Unit(f"server{i}", unit_hyp, {"n": n, "offset": 40 + i, "side": "server"}) for i in range(6)]
+    us += [Unit(f"backpressure{i}", unit_backpressure, {"n": max(20, n // 2), "offset": 80 + i}) for i in range(4)]
     return us
 
 
